@@ -33,14 +33,16 @@ RULE = (
     "float/complex/Decimal/Fraction equal to -1,0,1,2, a pool of 23 unrelated objects, 54 near-miss strings (whitespace, "
     "Unicode look-alikes, Kelvin sign, dotted I) and random one-edit neighbours of the words in random case. din: all "
     "well-formed (default?, is Factory?, takes_self?, factory?) x positional/keyword x explicit NOTHING/None. filter: all "
-    "what-lists of length <=1 (thorough <=2) over 10 classes + 5 names + 6 Attribute objects (equal ones from another "
-    "class, an inherited copy, same name with other settings) + 7 ignored objects, x 6 attributes x 11 values (bool vs int, "
+    "what-lists of length <=1 (thorough <=2) over 12 classes + 9 strings (field names AND init aliases) + 11 Attribute objects (equal ones from "
+    "another class, an inherited copy, same name with other settings, a private name whose alias differs, an explicit "
+    "alias=, two fields with swapped name and alias) + 7 ignored objects, x 6 attributes x 11 values (bool vs int, "
     "subclass instances, a class as value) each on a filter of its own AND all 78 pairs asked of ONE include/exclude object in "
     "two random orders, then random lists of length 1-6 (60% listing an Attribute) queried with a history of 2-10 "
     "questions built from same-named fields of different classes (equal and non-equal Attributes) with values of one "
     "exact type, the first question repeated at the end; each answer is judged on its own. cmp: all 32 subsets of {eq,lt,le,gt,ge} with "
-    "the standard functions x require_same_type x {same type, subclass payload, other type, foreign object} x 3-5 value "
-    "pairs, then random assignments of 10 relations (incl. constant, NotImplemented-returning and raising functions) to the "
+    "the standard functions x require_same_type x {same type, subclass payload, other type, foreign object, the IDENTICAL "
+    "wrapper object on both sides} x 3-5 value pairs, the diagonal (x op x) for each of 10 eq relations -- non-reflexive "
+    "ones included -- x 6 sets of ordering functions, then random assignments of 10 relations (incl. constant, NotImplemented-returning and raising functions) to the "
     "supplied slots (thorough: every single-slot deviation). Every supplied callable is instrumented: cmp functions record "
     "each call with the identity of the payload objects they receive (observed per method and per operator, derived ones "
     "included), come in a total and in a partial flavour (raise on payloads of different classes) and raise one of 7 "
@@ -59,7 +61,7 @@ ASSUMPTIONS = [
     "a __init__ that stores through object.__setattr__, _setattr or the instance dict is the same for this property; the class configuration is background variation the model is independent of",
 ]
 LEVEL_TEXT = (
-    "35 Lean theorems (Properties/C19.lean) about executable models of pipe/Converter/optional/default_if_none, to_bool, "
+    "37 Lean theorems (Properties/C19.lean) about executable models of pipe/Converter/optional/default_if_none, to_bool, "
     "include/exclude and cmp_using+total_ordering. Converters: the operational model (built objects, isinstance(Converter) "
     "dispatch, one/three-argument calls with arity errors, Converter.__call__'s lambda table, _fmt_converter_call's table, "
     "setters.convert) is proved equal, for every expression tree of any depth and width, every mode and every input "
@@ -72,10 +74,11 @@ LEVEL_TEXT = (
     "C19_to_bool_strings / C19_to_bool_case_variants / C19_to_bool_case_insensitive (all strings through ASCII lowering, "
     "all ints, bools; everything else ValueError) outside K10 (C19_K10_witness, C19_K10_narrow, C19_K10_shape); "
     "C19_default_if_none_args. Filters: C19_include_iff, C19_exclude_is_negation, C19_include_union for arbitrary "
-    "what-lists, C19_filter_history_independent (one filter object asked a sequence answers each question as a fresh one). cmp_using: C19_cmp_using_supplied, C19_cmp_using_notimpl (NotImplemented from all six methods, == False, "
+    "what-lists, C19_filter_history_independent (one filter object asked a sequence answers each question as a fresh one), "
+    "C19_include_name_not_alias (a listed string selects by name only). cmp_using: C19_cmp_using_supplied, C19_cmp_using_notimpl (NotImplemented from all six methods, == False, "
     "!= True, orderings TypeError), C19_cmp_using_derived (all integers, every non-empty subset of ordering functions with "
     "eq: all methods and operators compute the order), C19_cmp_using_mismatch_never_calls (on a type mismatch no supplied "
-    "function is called by any method or operator, derived and reflected ones included), C19_cmp_using_called_once, "
+    "function is called by any method or operator, derived and reflected ones included), C19_cmp_using_called_once, C19_cmp_using_no_identity_shortcut (x == x asks the eq function like any other pair), "
     "C19_cmp_using_total (any boolean functions: all six methods answer "
     "with a bool), C19_cmp_using_ctor. The models are tied to /repo by a differential correspondence (see rule; ~26 k "
     "cases quick, ~500 k thorough, zero disagreements required). Observed, not proved: CPython's tuple/frozenset "
